@@ -14,6 +14,7 @@ from scipy.linalg import inv, toeplitz, solve_banded, solve_triangular
 from scipy.optimize import nnls
 
 import abel
+from abel.tools.io import save_npy_atomic
 
 
 def daun_transform(data, reg=0.0, degree=0, dr=1.0, direction='inverse',
@@ -321,7 +322,7 @@ def _save_bs(basis_dir, n, degree, bs, verbose=False):
     file_name = 'daun_basis_{}_{}.npy'.format(n, degree)
     if verbose:
         print('Saving basis set to disk as', file_name)
-    np.save(os.path.join(basis_dir, file_name), bs)
+    save_npy_atomic(os.path.join(basis_dir, file_name), bs)
 
 
 def _bs_daun(n, degree=0, verbose=False):
